@@ -77,7 +77,7 @@ PROPS["C04"] = {
         {"cfg": c, "name": "tower", "lines": no_alias(gen("tower", seed, 8 if tier == "quick" else 40, tier))}
         for c in cfgs(tier, ["asm"], ["asm", "asm+nobmi2", "asm-clang", "portable64", "portable32"])],
     "hypotheses": [],
-    "not_modelled": "inverse/Frobenius/sqrt/cyclotomic facts that need Fq to be a field are compared with the Spec by the correspondence only (see level_note)",
+    "not_modelled": "Fq2 Legendre/sqrt are theorems in C09b; byte I/O of tower elements and the generic exponentiate are compared with the Spec by the correspondence only",
 }
 C04_THEOREMS = [
     "Jedi.C04.fq2_mul", "Jedi.C04.fq2_sqr", "Jedi.C04.fq2_mulNonres", "Jedi.C04.fq6_mul", "Jedi.C04.fq6_sqr",
@@ -163,8 +163,8 @@ def stream_set(groups, quick_cfgs, thorough_cfgs, alias=None, scale=5):
 
 PROPS["C03"] = {
     "translators": ["consts", "asm2lean"],
-    "lean_targets": ["JediVerif.Properties.C02"] + targets_if_exist("JediVerif.Properties.C03"),
-    "theorems": lambda: thms("C03") + [t for t in module_theorems("JediVerif.Properties.C02", "Jedi.C02") if any(k in t[0] for k in ("bigint_", "fp_", "montgomery", "limbs_unique", "fq_", "fr_"))],
+    "lean_targets": ["JediVerif.Properties.C02"] + targets_if_exist("JediVerif.Properties.C03", "JediVerif.Properties.C03b"),
+    "theorems": lambda: thms("C03", extra=(("JediVerif.Properties.C03b", "Jedi.C03"),)) + [t for t in module_theorems("JediVerif.Properties.C02", "Jedi.C02") if any(k in t[0] for k in ("bigint_", "fp_", "montgomery", "limbs_unique", "fq_", "fr_"))],
     "streams": stream_set([("asm", 10), ("bigint", 4), ("fp", 8)], ["asm", "asm+nobmi2", "portable64", "portable32"], ["asm", "asm+nobmi2", "asm-clang", "asm-O0", "portable64", "portable64-O0", "portable32", "portable32-O0", "asan", "asan-portable"], alias=None),
     "filter": None,
     "not_modelled": "AArch64 and ARMv6-M assembly sources: cannot be executed or (Thumb-1) assembled here; x86-64 assembly: instruction-level model (Impl/X86.lean) of the programs regenerated from the .s files by asm2lean (cross-checked against GNU as); theorems for the add/subtract/multiply2 families (Properties/C03.lean); multiply/square/Montgomery-reduce (both families) and cpu_supports_bmi2_adx have the model but no theorem: they are tied by the judge, which runs the model on every asm op line and demands the real routine's exact output (plus the Nat-level contract)",
